@@ -41,10 +41,13 @@ C2LEAN_FNS = ["m_get_high_bit", "m_get_mode", "m_get_reserved", "m_get_resolutio
               # scalar out parameters (extra results `<fn>_out_<param>`), conditionals inside loops, a column of the
               # file-scope table baseCellData, while loops
               "cellToParent", "cellToCenterChild", "isPentagon", "_h3RotatePent60ccw", "_h3RotatePent60cw",
-              "cellToChildrenSize", "makeDirectChild", "setH3Index"]
+              "cellToChildrenSize", "makeDirectChild", "setH3Index",
+              # calls that pass `&local` for a callee's out parameter; a local declared without initialiser becomes an
+              # extra, universally quantified parameter `u_<name>` of the translation
+              "getDirectedEdgeOrigin", "isValidDirectedEdge", "maxFaceCount"]
 C2LEAN_UNROLL = {"_h3LeadingNonZeroDigit": 16, "_h3Rotate60ccw": 16, "_h3Rotate60cw": 16, "cellToParent": 16,
                  "_h3RotatePent60ccw": 16, "_h3RotatePent60cw": 16, "_ipow": 6, "setH3Index": 16}
-C2LEAN_FILES = ["h3Index.c", "coordijk.c", "baseCells.c", "mathExtensions.c"]
+C2LEAN_FILES = ["h3Index.c", "coordijk.c", "baseCells.c", "mathExtensions.c", "directedEdge.c"]
 
 
 def log(*a):
